@@ -20,6 +20,7 @@ import (
 	"verif/engine/props/c12"
 	"verif/engine/props/c13"
 	"verif/engine/props/c14"
+	"verif/engine/props/c15"
 	"verif/engine/props/c16"
 	"verif/engine/props/c17"
 	"verif/engine/props/c18"
@@ -47,6 +48,7 @@ var checks = map[string]struct {
 	"C12": {"model_checking", c12.Run},
 	"C13": {"model_checking", c13.Run},
 	"C14": {"model_checking", c14.Run},
+	"C15": {"translation_validation", c15.Run},
 	"C16": {"model_checking", c16.Run},
 	"C17": {"model_checking", c17.Run},
 	"C18": {"model_checking", c18.Run},
